@@ -171,6 +171,14 @@ fn step<A: AllocOps>(a: &mut A, m: &mut Model, op: Op, query_points: &[u64], rep
                 m.used.insert(v);
             }
         }
+        Op::Release(v) if v < m.lo || v > m.hi => {
+            // releasing a value that can never be handed out: the allocator may refuse by its range assertion (the call
+            // then changes nothing) or ignore the call - but the value must not become free (all queries below)
+            rep.hit("A10-release-out-of-range-frees-nothing");
+            if guard::call(|| a.deallocate(v)).is_err() {
+                rep.count("release_out_of_range_refused_by_assertion");
+            }
+        }
         Op::Release(v) => {
             if m.used.contains(&v) {
                 rep.hit("A3-release-used");
@@ -302,12 +310,14 @@ fn exhaustive<A: AllocOps + Send>(ty: &'static str, lo: u64, hi: u64, tmax: u64,
         alpha.push(Op::Use(v));
         alpha.push(Op::Release(v));
     }
-    // reserving a value outside the range must fail (model: not free)
+    // reserving a value outside the range must fail (model: not free); releasing one must free nothing
     if lo > 0 {
         alpha.push(Op::Use(lo - 1));
+        alpha.push(Op::Release(lo - 1));
     }
     if hi < tmax {
         alpha.push(Op::Use(hi + 1));
+        alpha.push(Op::Release(hi + 1));
     }
     let mut qp: Vec<u64> = (lo..=hi).collect();
     if lo > 0 {
@@ -382,7 +392,14 @@ fn random_seq<A: AllocOps>(ty: &'static str, lo: u64, hi: u64, tmax: u64, nops: 
             0..=34 => Op::Allocate,
             35..=59 => Op::Use(pick_v(&mut r, &m, &pool)),
             60..=96 => Op::Release(pick_v(&mut r, &m, &pool)),
-            97 => Op::Use(if r.bool() && lo > 0 { lo - 1 } else if hi < tmax { hi + 1 } else { lo }),
+            97 => {
+                let v = if r.bool() && lo > 0 { lo - 1 } else if hi < tmax { hi + 1 } else { lo };
+                if r.bool() {
+                    Op::Use(v)
+                } else {
+                    Op::Release(v)
+                }
+            }
             _ => Op::Clear,
         };
         if let Op::Allocate = op {
